@@ -6,16 +6,19 @@
 EXTENDS Common
 
 TypeAtoms  == {"ca", "signingAuthority", "tsa", "bogus", ""}
-NameAtoms  == {"plain", "dotted", "withSep", "dot", "dotdot", "empty"}
+NameAtoms  == {"plain", "dotted", "withSep", "dot", "dotdot", "empty", "unicode"}   \* "unicode": letters outside ASCII
 KindAtoms  == {"missing", "dir", "symlinkDir", "file"}
-EntryAtoms == {"pemCA", "derCA", "multiPEM", "multiCAnonRootFirst", "multiCAnonRootLast", "selfSignedLeaf", "leafNotSelfSigned", "nonRootCA", "garbage", "emptyFile", "subdir", "symlinkFile"}
+EntryAtoms == {"pemCA", "derCA", "multiPEM", "multiCAnonRootFirst", "multiCAnonRootLast", "selfSignedLeaf", "leafNotSelfSigned", "nonRootCA", "garbage", "emptyFile", "subdir", "symlinkFile",
+               \* self-ISSUED (issuer name = subject name) but signed with another key: a leaf of that kind is not self-signed,
+               \* a CA of that kind is not a root
+               "leafSelfIssued", "caSelfIssued"}
 
 KnownType(t) == t \in {"ca", "signingAuthority", "tsa"}
 PlainName(n) == n \in {"plain", "dotted"}
 (* an entry is a regular file holding one or more parseable certificates that are CA or self-signed certificates -
    and, for tsa stores, self-signed roots *)
 EntryOK(t, e) == IF t = "tsa" THEN e \in {"pemCA", "derCA"}
-                 ELSE e \in {"pemCA", "derCA", "multiPEM", "multiCAnonRootFirst", "multiCAnonRootLast", "selfSignedLeaf", "nonRootCA"}
+                 ELSE e \in {"pemCA", "derCA", "multiPEM", "multiCAnonRootFirst", "multiCAnonRootLast", "selfSignedLeaf", "nonRootCA", "caSelfIssued"}
 
 Loads(in) == /\ KnownType(in.type) /\ PlainName(in.name) /\ in.kind = "dir"
              /\ Len(in.entries) >= 1
